@@ -85,8 +85,11 @@ func verifH_Registry() {
 		}
 		rr("remove")
 	case 2: // remove a non-member
+		latch := c.avail
 		k, ok := c.remove(&tunnelChannel{})
 		verifAssert(!ok && k == nil && len(c.chans) == n, "C12.remove-of-a-stranger-changes-nothing")
+		// ... not the readiness latch either: a WaitForReady that is already waiting holds the old one
+		verifAssert(c.avail == latch, "C12.remove-of-a-stranger-keeps-the-readiness-latch-waiters-hold")
 		rr("remove-stranger")
 	case 3: // n consecutive picks on a stable set use each tunnel exactly once
 		if n == 0 {
